@@ -79,6 +79,12 @@ def cases(tier):
              R("route", "uint32_t", ["uint32_t x"], "{ if (x == 0) { return 7; } else { return clz32(x); } }"),
              R("lsum", "uint32_t", ["uint32_t x"], "{ uint32_t lsum_s = 0; int32_t lsum_i; for (lsum_i = 0; lsum_i < 3; lsum_i++) { lsum_s += x; } return lsum_s + clo32(x); }"),
              R("rexp", "int32_t", ["int32_t x"], "{ if (x & 1) { return ({ int32_t rexp_t = x + 1; rexp_t; }); } else { return clz32(x) + clo32(x); } }")]
+    rts_r += [R("inc1", "uint32_t", ["uint32_t x"], "{ return x + 1; }"), R("dbl", "uint32_t", ["uint32_t x"], "{ return x + x; }"),
+              R("pick2", "uint32_t", ["uint32_t x"], "{ uint32_t pick2_t = inc1(x); if (pick2_t > 5) { return pick2_t; } else { return dbl(x); } }"),
+              R("lead2", "uint32_t", ["uint32_t x"], "{ uint32_t lead2_t = clz32(x); return clo32(x) + lead2_t; }"),
+              R("chain2", "uint32_t", ["uint32_t x"], "{ uint32_t chain2_t = dbl(x); return inc1(chain2_t); }")]
+    for st in ["r = pick2(a);", "r = pick2(a) + pick2(b);", "r = lead2(a);", "r = chain2(a);", "r = chain2(pick2(a));"]:
+        out.append((rts_r, P(d, st, ["r"]), ("return-call", st)))
     for st in ["r = pickr(a);", "r = route(a);", "r = route(a) + route(b);", "r = lsum(a);", "r = rexp(a);", "r = pickr(a) + rexp(b);", "if (b) { r = route(a); } else { r = pickr(a); }"]:
         out.append((rts_r, P(d, st, ["r"]), ("return-hybrid", st)))
     rts = [R("early", "int32_t", ["int32_t x"], "{ if (x == 0) { return 77; } return x + 1; }")]
